@@ -358,8 +358,12 @@ def edge_facts(fn, bb):
                 names = [fn.prog.variant_by_discr(adt, v) if adt else v for v in e.others]
                 # if exactly one variant remains, state it positively too
                 a = fn.prog.find_adt(adt) if adt else None
-                if a is not None:
-                    rest = [v["name"] for v in a["variants"] if v["name"] not in names]
+                all_names = [v["name"] for v in a["variants"]] if a is not None else None
+                if all_names is None and adt in fn.prog.STD_VARIANTS and \
+                        isinstance(fn.prog.STD_VARIANTS[adt], list):
+                    all_names = fn.prog.STD_VARIANTS[adt]
+                if all_names is not None:
+                    rest = [v for v in all_names if v not in names]
                     if len(rest) == 1:
                         out.append(Fact(e, "variant", cond.a, rest[0]))
                         continue
